@@ -29,6 +29,13 @@ def step (_ : Unit) : List String → Unit × String
       let r := matchHost bl h
       ((), if r.isEmpty then "none" else ",".intercalate (r.map toString))
     | _, _ => ((), "bad-op")
+  | ["hostseq", hs, bl] => match (hs.splitOn ",").mapM fromHex, parseBlocks bl with
+    -- several lookups on one configuration: each is the lookup on the configuration as parsed
+    | some hs, some bl =>
+      ((), "/".intercalate (hs.map fun h =>
+        let r := matchHost bl h
+        if r.isEmpty then "none" else ",".intercalate (r.map toString)))
+    | _, _ => ((), "bad-op")
   | ["vhost", n, ps] => match fromHex n, parseList "," ps with
     | some n, some ps => ((), match vhostMatch ps n with | some i => toString i | none => "none")
     | _, _ => ((), "bad-op")
